@@ -5,7 +5,11 @@
 //
 //	equal    (searcher, model-independent) tengo.Format(f, args) == fmt.Sprintf(f, goArgs...) inside the
 //	         equality claim; which operand each verb consumes is observed from Go's fmt itself
-//	         (recording fmt.Formatter wrappers), so no parser of ours decides the claim
+//	         (recording fmt.Formatter wrappers), so no parser of ours decides the claim. Two differences
+//	         of the unchanged tree are decided exactly and reported under their own signatures (known
+//	         findings O38/O39): the text of a bad-verb group (%!d("s"="s") for Go's %!d(string=s)) and a
+//	         bytes operand under a verb other than s q x X v d printing nothing (Go: the element list);
+//	         every other difference, also inside such a group, is format-differs-from-go-fmt
 //	safety   (searcher) arbitrary formats/arguments: no panic, terminates, result within
 //	         MaxStringLen, the only error is ErrStringLimit (also under small MaxStringLen)
 //	entry    (searcher) the `format` builtin and `fmt.sprintf` (compiled scripts) return what
@@ -13,6 +17,8 @@
 //	fmt      (correspondence) real output vs the Lean model M, byte for byte
 //	gspec    (spec tie) the declarative spec G of Props/C17 vs fmt.Sprintf on single directives
 //	single   exhaustive single directives (verb x flag subset x width x precision x argument)
+//	cross    exhaustive single directives of every documented verb on every operand type it is NOT
+//	         documented for (bad verbs on int/float/string/bool, bytes under the other verbs)
 package main
 
 import (
@@ -21,6 +27,7 @@ import (
 	"encoding/json"
 	"errors"
 	"fmt"
+	"io"
 	"math"
 	"os"
 	"sort"
@@ -152,7 +159,78 @@ type use struct {
 	sharp bool
 }
 
-type recorder struct{ uses []use }
+// recorder collects the operand uses of one fmt.Sprintf over the wrapped operands. With args == nil the
+// wrappers only record (observation run). With args set they also print: every use prints what Go's fmt
+// prints for the corresponding Go value under the same flags, width and precision, except the uses the
+// rewrite mask selects, which print what the unchanged tengo tree prints there (known findings O38/O39).
+type recorder struct {
+	uses []use
+	args []arg
+	rw   int  // rwBadVerb | rwBytes
+	odd  bool // Go's own text of a selected use did not have the expected shape: no classification
+}
+
+const (
+	rwBadVerb = 1 // %!verb(type=value) -> %!verb(String()=fmtS(String())), formatter.go badVerb
+	rwBytes   = 2 // [e0 e1 ...] of a bytes operand under a verb other than s q x X v d -> nothing (fmtBytes has no default arm)
+)
+
+// classes of one (operand, verb) use
+const (
+	useGood       = iota // verb documented for the operand's type (and %d on bytes, which both sides print as the element list)
+	useBadVerb           // documented verb on an int/float/string/bool operand it is not documented for
+	useBytesOther        // documented verb other than s q x X (v) d on a bytes operand
+	useOutside           // %v (O22), %T (O23), verbs that are not documented at all
+)
+
+// every verb docs/formatting.md documents for some type (%v and %T: known findings O22/O23)
+const documentedAny = "tbcdoOqxXUeEfFgGs"
+
+func classOf(a arg, verb rune) int {
+	if verb >= utf8.RuneSelf || !strings.ContainsRune(documentedAny, verb) {
+		return useOutside
+	}
+	if strings.ContainsRune(documented[a.K], verb) {
+		return useGood
+	}
+	if a.K == 'y' {
+		if verb == 'd' {
+			return useGood
+		}
+		return useBytesOther
+	}
+	return useBadVerb
+}
+
+// tengoString is Object.String() of the five mapped types as the unchanged tree defines it (objects.go),
+// computed here without the tree so that a change of the tree cannot move the expectation.
+func tengoString(a arg) string {
+	switch a.K {
+	case 'i':
+		return strconv.FormatInt(a.I, 10)
+	case 'f':
+		return strconv.FormatFloat(a.F, 'f', -1, 64)
+	case 's':
+		return strconv.Quote(a.S)
+	case 'b':
+		return strconv.FormatBool(a.B)
+	}
+	return a.S
+}
+
+func goTypeName(a arg) string {
+	switch a.K {
+	case 'i':
+		return "int64"
+	case 'f':
+		return "float64"
+	case 's':
+		return "string"
+	case 'b':
+		return "bool"
+	}
+	return "[]uint8"
+}
 
 // Operands handed to Go's fmt for the observation run. Int arguments stay integer kinds (so `*`
 // accepts them exactly like the int64 they stand for): one named int type per argument position.
@@ -174,7 +252,33 @@ type pi8 int64
 type pi9 int64
 
 func rec(i int, s fmt.State, verb rune) {
-	curRec.uses = append(curRec.uses, use{verb, i, s.Flag('#')})
+	r := curRec
+	r.uses = append(r.uses, use{verb, i, s.Flag('#')})
+	if r.args == nil || i >= len(r.args) {
+		return
+	}
+	a := r.args[i]
+	// what Go's fmt prints for the Go value under this directive (fmt.FormatString rebuilds flags, width, precision)
+	own := fmt.Sprintf(fmt.FormatString(s, verb), a.goVal())
+	switch classOf(a, verb) {
+	case useBadVerb:
+		if !strings.HasPrefix(own, "%!"+string(verb)+"("+goTypeName(a)+"=") || !strings.HasSuffix(own, ")") {
+			r.odd = true
+		} else if r.rw&rwBadVerb != 0 {
+			// formatter.go badVerb: "%!" verb "(" arg.String() "=" printArg(arg, 'v') ")", and printArg's 'v' is
+			// fmtS(arg.String()) under the directive's own width, precision, '-' and '0' (what %s does in Go)
+			str := tengoString(a)
+			_, _ = io.WriteString(s, "%!"+string(verb)+"("+str+"="+fmt.Sprintf(fmt.FormatString(s, 's'), str)+")")
+			return
+		}
+	case useBytesOther:
+		if !strings.HasPrefix(own, "[") || !strings.HasSuffix(own, "]") {
+			r.odd = true
+		} else if r.rw&rwBytes != 0 {
+			return
+		}
+	}
+	_, _ = io.WriteString(s, own)
 }
 func (pi0) Format(s fmt.State, v rune) { rec(0, s, v) }
 func (pi1) Format(s fmt.State, v rune) { rec(1, s, v) }
@@ -215,9 +319,7 @@ func wrapInt(i int, v int64) interface{} {
 
 // observe runs Go's fmt with recording operands and returns (verb, operand index, '#') of every
 // operand a verb consumed.
-func observe(f string, args []arg) []use {
-	r := &recorder{}
-	curRec = r
+func wrapArgs(args []arg) []interface{} {
 	w := make([]interface{}, len(args))
 	for i, a := range args {
 		if a.K == 'i' {
@@ -226,7 +328,22 @@ func observe(f string, args []arg) []use {
 			w[i] = other{i}
 		}
 	}
-	out := fmt.Sprintf(f, w...)
+	return w
+}
+
+// render runs Go's fmt over printing wrappers: Go's own text when rw == 0 (must reproduce fmt.Sprintf on the
+// plain values, which the caller checks), otherwise Go's text with the selected uses in the unchanged tree's form.
+func render(f string, args []arg, rw int) (string, bool) {
+	r := &recorder{args: args, rw: rw}
+	curRec = r
+	out := fmt.Sprintf(f, wrapArgs(args)...)
+	return out, r.odd
+}
+
+func observe(f string, args []arg) []use {
+	r := &recorder{}
+	curRec = r
+	out := fmt.Sprintf(f, wrapArgs(args)...)
 	// %T and %p are handled by fmt before it looks for a Formatter: they show as the operand's type name
 	// (possibly truncated by a precision, hence the conservative test on the format bytes as well)
 	if strings.Contains(out, "main.pi") || strings.Contains(out, "main.other") || strings.ContainsAny(f, "Tp") {
@@ -256,46 +373,94 @@ func convertibleNonInt(a arg) bool {
 	return false
 }
 
-// inClaim decides, from Go's own behaviour, whether (f, args) lies inside the equality claim.
-func inClaim(f string, args []arg, goOut string) (bool, string) {
+// inClaim decides, from Go's own behaviour, whether (f, args) lies inside the equality claim, and counts
+// the uses on which the unchanged tree is known to differ from Go (bad: O38, byo: O39).
+func inClaim(f string, args []arg, goOut string) (in bool, why string, bad, byo int) {
 	if len(args) > maxArgs {
-		return false, "too-many-args"
+		return false, "too-many-args", 0, 0
 	}
 	for _, u := range observe(f, args) {
 		if u.idx < 0 {
-			return false, "verb-T-or-p(O23)"
+			return false, "verb-T-or-p(O23)", 0, 0
 		}
 		a := args[u.idx]
-		if u.verb >= utf8.RuneSelf || !strings.ContainsRune(documented[a.K], u.verb) {
+		switch classOf(a, u.verb) {
+		case useOutside:
 			if u.verb == 'v' {
-				return false, "verb-v(O22)"
+				return false, "verb-v(O22)", 0, 0
 			}
 			if u.verb == 'T' {
-				return false, "verb-T(O23)"
+				return false, "verb-T(O23)", 0, 0
 			}
-			return false, "verb-not-documented-for-type"
+			return false, "verb-not-documented", 0, 0
+		case useBadVerb:
+			bad++
+			continue
+		case useBytesOther:
+			byo++
+			continue
 		}
 		if a.K == 'i' && u.verb == 'q' && (a.I < 0 || a.I > 0x10FFFF) {
-			return false, "q-on-non-code-point"
+			return false, "q-on-non-code-point", 0, 0
 		}
 		if a.K == 'f' && (u.verb == 'x' || u.verb == 'X') && u.sharp {
-			return false, "sharp-x-on-float"
+			return false, "sharp-x-on-float", 0, 0
 		}
 		if a.K == 'f' && (u.verb == 'g' || u.verb == 'G') && u.sharp && a.F != 0 && math.Abs(a.F) < 1 {
-			return false, "sharp-g-leading-zeros(O29)"
+			return false, "sharp-g-leading-zeros(O29)", 0, 0
 		}
 	}
 	if strings.Contains(goOut, "%!(EXTRA ") {
-		return false, "surplus-args"
+		return false, "surplus-args", 0, 0
 	}
 	if strings.Contains(goOut, "%!(BADWIDTH)") || strings.Contains(goOut, "%!(BADPREC)") {
 		for _, a := range args {
 			if convertibleNonInt(a) {
-				return false, "star-operand-maybe-non-int(O27)"
+				return false, "star-operand-maybe-non-int(O27)", 0, 0
 			}
 		}
 	}
-	return true, ""
+	return true, "", bad, byo
+}
+
+const (
+	sigBadVerb = "format-bad-verb-text-differs-from-go-fmt"     // known finding O38
+	sigBytes   = "format-bytes-under-other-verb-prints-nothing" // known finding O39
+)
+
+// outcomeOf is what a formatter producing text t must return under the limit L.
+func outcomeOf(t string, L int) string {
+	if len(t) > L {
+		return "err stringLimit"
+	}
+	return "ok " + lib.HexS(t)
+}
+
+// knownDifference decides whether the real outcome differs from Go's ONLY by the two recorded differences of
+// the unchanged tree: it must equal, byte for byte, Go's text with the bad-verb groups and/or the bytes element
+// lists of exactly the uses Go's fmt reported replaced by what formatter.go prints there. Nothing of the tree
+// under test enters the expectation.
+func knownDifference(f string, args []arg, L int, goOut, real string, bad, byo int) []string {
+	if bad == 0 && byo == 0 {
+		return nil
+	}
+	if id, odd := render(f, args, 0); odd || id != goOut {
+		res.Dist("classify:wrappers-do-not-reproduce-go")
+		return nil
+	}
+	try := func(rw int) bool {
+		t, _ := render(f, args, rw)
+		return real == outcomeOf(t, L)
+	}
+	switch {
+	case bad > 0 && try(rwBadVerb):
+		return []string{sigBadVerb}
+	case byo > 0 && try(rwBytes):
+		return []string{sigBytes}
+	case bad > 0 && byo > 0 && try(rwBadVerb|rwBytes):
+		return []string{sigBadVerb, sigBytes}
+	}
+	return nil
 }
 
 // ---- oracle table for the model ----
@@ -572,7 +737,7 @@ func checkCase(f string, args []arg, L int, opt caseOpts) {
 	in := mkInput(f, args, L)
 	real := callFormat(f, args)
 	goOut := goSprintf(f, args)
-	claim, why := inClaim(f, args, goOut)
+	claim, why, nBad, nByo := inClaim(f, args, goOut)
 	key := f + "\x00" + fmt.Sprint(in.Args) + "\x00" + strconv.Itoa(L)
 	res.Count(opt.stream, key, claim && strings.Contains(f, "%"))
 	if claim {
@@ -601,8 +766,13 @@ func checkCase(f string, args []arg, L int, opt caseOpts) {
 	}
 
 	// equality with Go's fmt, inside the claim
-	if claim {
-		if len(goOut) <= L {
+	if claim && real.String() != outcomeOf(goOut, L) {
+		if sigs := knownDifference(f, args, L, goOut, real.String(), nBad, nByo); sigs != nil {
+			for _, sig := range sigs {
+				res.Dist("known-difference:" + sig)
+				res.Violate(lib.Violation{Signature: sig, Stream: "equal", Input: in, Observed: clip(real.String(), 400) + " = " + clip(strconv.Quote(real.s), 200), Expected: clip(outcomeOf(goOut, L), 400) + " = " + clip(strconv.Quote(goOut), 200), Oracle: "fmt.Sprintf on the corresponding Go values; the result equals Go's text with exactly this recorded difference of the unchanged tree applied to the uses Go's fmt reports"})
+			}
+		} else if len(goOut) <= L {
 			if real.limit || real.s != goOut {
 				res.Violate(lib.Violation{Signature: "format-differs-from-go-fmt", Stream: "equal", Input: in, Observed: clip(real.String(), 400), Expected: clip("ok "+lib.HexS(goOut), 400) + " = " + clip(strconv.Quote(goOut), 200), Oracle: "fmt.Sprintf on the corresponding Go values (int64, float64, string, bool, []byte)"})
 			}
@@ -991,6 +1161,68 @@ func singles(full bool) {
 	}
 }
 
+// ---- exhaustive cross-type directives: every documented verb on every operand type it is not documented for ----
+
+var crossArgs = []arg{
+	{K: 'i', I: 65}, {K: 'i', I: -7}, {K: 'i', I: math.MinInt64},
+	{K: 'f', F: 1.5}, {K: 'f', F: 1e21}, {K: 'f', F: math.NaN()}, {K: 'f', F: math.Copysign(0, -1)},
+	{K: 's', S: "s"}, {K: 's', S: "hé\"llo)\n"}, {K: 's', S: ""}, {K: 's', S: "%!d(string=x)"},
+	{K: 'b', B: true}, {K: 'b', B: false},
+	{K: 'y', S: "ab"}, {K: 'y', S: ""}, {K: 'y', S: "hi\xff\x00é"},
+}
+
+// cross runs through both searchers and the model correspondence, so that bad verbs on all five operand
+// types and bytes under the other verbs are compared with Go's fmt AND with the Lean model on every run.
+func cross(full bool) {
+	flagSets := []string{"", "-", "0", "+", "#", " ", "-0", "+# 0"}
+	wids := []string{"", "7", "*"}
+	precs := []string{"", ".1", ".*"}
+	if full {
+		flagSets = nil
+		for m := 0; m < 32; m++ {
+			fs := ""
+			for k := 0; k < 5; k++ {
+				if m&(1<<k) != 0 {
+					fs += string("+-# 0"[k])
+				}
+			}
+			flagSets = append(flagSets, fs)
+		}
+		wids = []string{"", "0", "1", "7", "64", "*"}
+		precs = []string{"", ".", ".1", ".7", ".*"}
+	}
+	n := 0
+	for _, v := range []byte(documentedAny) {
+		for _, a := range crossArgs {
+			if strings.IndexByte(documented[a.K], v) >= 0 {
+				continue
+			}
+			for _, fs := range flagSets {
+				for _, w := range wids {
+					for _, p := range precs {
+						var args []arg
+						if w == "*" {
+							args = append(args, arg{K: 'i', I: -9})
+						}
+						if p == ".*" {
+							args = append(args, arg{K: 'i', I: 3})
+						}
+						args = append(args, a)
+						n++
+						checkCase("%"+fs+w+p+string(v), args, defLimit, caseOpts{stream: "cross", scripts: n%16 == 0})
+						if n%7 == 0 {
+							// several directives, literal text, an explicit index re-using the operand, a small limit
+							checkCase("<%"+fs+w+p+string(v)+"|%[1]"+string(v)+">", args, lib.Pick(crossRNG, []int{defLimit, defLimit, 24, 9}), caseOpts{stream: "cross"})
+						}
+					}
+				}
+			}
+		}
+	}
+}
+
+var crossRNG *lib.RNG
+
 // ---- known-finding probes of this property ----
 
 type probe struct {
@@ -1113,7 +1345,14 @@ var corpus = []ccase{
 	cc("%+f % f %+.0f %#.0f %#g %#.3g %010.2f %-10.2f| %+010f", af(1), af(1), af(2.5), af(2), af(1), af(1e6), af(-3.14159), af(3.14159), af(math.Inf(1))),
 	cc("%f %+f % f %010f %-10f|%5.1f", af(math.NaN()), af(math.NaN()), af(math.NaN()), af(math.Inf(-1)), af(math.NaN()), af(math.Inf(1))),
 	cc("%#e %#E %#.0e %#G %#.10g %x %X %.3x", af(1), af(100), af(5), af(1e-10), af(123456789), af(1), af(255.5), af(1)),
-	cc("%d", as("x")), cc("%s", ai(1)), cc("%t", ai(1)), cc("%d", ay("ab")), cc("%c", ay("ab")), cc("%5.1z", ai(7)), cc("%v %v %v %v %v", ai(1), af(1e21), as("a"), ab(true), ay("hi")),
+	cc("%d", as("x")), cc("%s", ai(1)), cc("%t", ai(1)), cc("%d", ay("ab")), cc("%c", ay("ab")),
+	// bad verbs (O38) and bytes under the other verbs (O39): width/precision/flags reach the value inside the group, '*', [n], nesting
+	cc("%d", as("s")), cc("%8.2d|%-8d|%08d|%+d|%#d|% d", as("héllo"), as("s"), as("s"), as("s"), as("s"), as("s")), cc("%*d|%-*.*d|", ai(6), as("s"), ai(-7), ai(2), as("abc")),
+	cc("%s %e %t %q %c %U", ai(1), ai(2), ai(3), af(1.5), af(2.5), as("x")), cc("%d %x %s %q %c", ab(true), ab(false), ab(true), ab(false), ab(true)), cc("%5.1t|%05s|%-6s|", af(1e21), af(math.NaN()), af(-0.0)),
+	cc("%[2]*[1]t %[1]s", ai(5), ai(8)), cc("%d", as("%!d(string=x)")), cc("%d %d", as(")"), as("=")), cc("%!d(string=s) %d", as("s")),
+	cc("%c|%o|%t|%U|%b|%O|%e|%g", ay("ab"), ay("ab"), ay("ab"), ay("ab"), ay("a"), ay("a"), ay("a"), ay("")), cc("%5c|%-5o|%05b|%+d|%#o|%.2c|%*c", ay("ab"), ay("ab"), ay("ab"), ay("ab"), ay("ab"), ay("ab"), ai(4), ay("ab")),
+	cc("%c %d", ay("ab"), as("x")), cc("%d|%c|%[1]s|%[2]d", as("s"), ay("ab")), cc("%5d|%#d|%+.3d", ay("ab"), ay("\x00\xff"), ay("ab")),
+	{"%d", []arg{as("s")}, 12}, {"%d", []arg{as("s")}, 11}, {"%d", []arg{as("s")}, 13}, {"%c", []arg{ay("ab")}, 0}, {"%c", []arg{ay("ab")}, 4}, {"%c|%t", []arg{ay("ab"), ai(1)}, 10}, cc("%5.1z", ai(7)), cc("%v %v %v %v %v", ai(1), af(1e21), as("a"), ab(true), ay("hi")),
 	cc("%T %T %T %T %T", ai(1), af(1), as("a"), ab(true), ay("hi")), cc("%d", ai(1), ai(2), as("x")), cc("%[1]d", ai(1), ai(2)), cc("%%|%5%|%-5%|%[1]%|%*%", ai(3)),
 	cc("%*d", af(3), ai(5)), cc("%*d", as("4"), ai(5)), cc("%.*f", ab(true), af(2.5)), cc("%*d", ay("4"), ai(5)), cc("%*d", af(math.NaN()), ai(5)),
 	cc("%10000001d", ai(1)), cc("%1000000d|", ai(1)), cc("%.99999999999d", ai(1)), cc("%[99999999999]d", ai(1)),
@@ -1139,13 +1378,14 @@ func main() {
 	res.DriverUsed = drv != nil
 	res.Rule = "format strings from the directive grammar (verb x flag subset x width x precision x [n] forms, '*' operands, missing/surplus arguments) and arbitrary byte strings, " +
 		"arguments from boundary pools (ints incl. MinInt64 and code-point edges, special floats, non-UTF-8 strings, bools, bytes); a case is non-trivial when it lies inside the equality claim " +
-		"(every consumed operand has a verb documented for its type, as observed from Go's fmt) and contains a directive; distinct by (format, arguments, MaxStringLen)"
+		"(every consumed operand has a documented verb, as observed from Go's fmt; a verb the operand's type is not documented for is inside: Go prints %!verb(type=value) or, for bytes, the element list) and contains a directive; distinct by (format, arguments, MaxStringLen)"
 
 	if f.Replay != "" {
 		replay(f.Replay)
 		flush()
 		runOwnProbes(f.Known)
 		lib.RunProbes(res, "C17", f.Known)
+		knownLast()
 		res.Write(f.Out)
 		return
 	}
@@ -1173,12 +1413,26 @@ func main() {
 		checkCase(fs, args, pickLimit(r), caseOpts{stream: stream, scripts: i%f.Scale(8, 40) == 0})
 	}
 	singles(f.Thorough())
+	crossRNG = rng.Fork()
+	cross(f.Thorough())
 	res.Exhaustive = true
-	res.Extra = map[string]interface{}{"single_directives": map[bool]string{true: "20 verbs x 32 flag subsets x 6 widths x 6 precisions x 21 arguments", false: "20 verbs x 32 flag subsets x 3 widths x 4 precisions x up to 9 arguments of a documented type"}[f.Thorough()]}
+	res.Extra = map[string]interface{}{"single_directives": map[bool]string{true: "20 verbs x 32 flag subsets x 6 widths x 6 precisions x 21 arguments", false: "20 verbs x 32 flag subsets x 3 widths x 4 precisions x up to 9 arguments of a documented type"}[f.Thorough()],
+		"cross_type_directives": map[bool]string{true: "17 documented verbs x every one of 16 arguments of a type the verb is not documented for x 32 flag subsets x 6 widths x 5 precisions", false: "17 documented verbs x every one of 16 arguments of a type the verb is not documented for x 8 flag sets x 3 widths x 3 precisions"}[f.Thorough()]}
 	flush()
 	runOwnProbes(f.Known)
 	lib.RunProbes(res, "C17", f.Known)
+	knownLast()
 	res.Write(f.Out)
+}
+
+// knownLast moves the violations carrying the two recorded signatures behind all others, so that whoever
+// reads only the head of the list (tools/mutant-run prints three) sees the unexplained ones first.
+func knownLast() {
+	sort.SliceStable(res.Violations, func(i, j int) bool {
+		ki := res.Violations[i].Signature == sigBadVerb || res.Violations[i].Signature == sigBytes
+		kj := res.Violations[j].Signature == sigBadVerb || res.Violations[j].Signature == sigBytes
+		return !ki && kj
+	})
 }
 
 func replay(path string) {
